@@ -92,6 +92,7 @@ func genLDOpts(t *rapid.T, n int) m.LDOpts {
 		o.Aliases = rapid.Bool().Draw(t, "aliases")
 		o.Coerce = rapid.Bool().Draw(t, "coerce")
 	}
+	o.EmptyProps = rapid.IntRange(0, 3).Draw(t, "emptyProps") == 0
 	o.Reverse = rapid.IntRange(0, 2).Draw(t, "reverse") == 0
 	o.SetObj = rapid.IntRange(0, 2).Draw(t, "setObj") == 0
 	if n > 1 && rapid.Bool().Draw(t, "reorder") {
